@@ -110,6 +110,7 @@ struct Sched {
   uint64_t step = 0;
   uint64_t write_epoch = 0;
   uint64_t last_write_step = 0;
+  uint64_t last_progress_step = 0; // last operation boundary (op_begin/op_end) of any thread
   bool concurrent = false;
   // generation
   Rng rs{0}, rprog{0}, rrf{0}, rrnd{0};
@@ -623,7 +624,7 @@ static void sched_point_ex(bool is_spin) {
       if (G.thr[t].state != T_NONE && G.thr[t].state != T_FINISHED) alive++;
     if (alive == 1) fail("hang", "one operation of a single-threaded execution exceeded %lu steps", (unsigned long)G.seq_op_cap);
   }
-  if (G.step - G.last_write_step > G.livelock_steps + 4 * (uint64_t)G.weakW) {
+  if (G.step - (G.last_write_step > G.last_progress_step ? G.last_write_step : G.last_progress_step) > G.livelock_steps + 4 * (uint64_t)G.weakW) {
     // nobody changed shared state for a very long time although somebody was always scheduled
     int alive = 0;
     for (int t = 0; t < MAXT; ++t)
@@ -663,11 +664,13 @@ void op_begin(int lockfree) {
   me.in_op = true;
   me.op_lockfree = lockfree != 0;
   me.op_steps = 0;
+  G.last_progress_step = G.step;
 }
 void op_end() {
   if (t_tid < 0) return;
   Thr& me = G.thr[t_tid];
   me.in_op = false;
+  G.last_progress_step = G.step;
   if (G.solo_active && G.solo_tid == t_tid) {
     // the victim finished the operation it ran alone
     g_shm->verdict = V_PASS;
